@@ -397,3 +397,7 @@ class C18(core.Prop):
 
 
 PROP = C18()
+
+# shape families added after the first complete pass (DESIGN 8.6-8.11); appended to the bounds written into the evidence
+BOUNDS_ADDED = '; weights >= 0 with positive total; embed shapes with a hydrogen as second node'
+PROP.BOUNDS = {k: v + BOUNDS_ADDED for k, v in PROP.BOUNDS.items()}
